@@ -2,12 +2,15 @@
 //! and the property oracle on the implementation.
 //!
 //! T2 case syntax (names are the hex of the uncompressed absolute wire form):
-//!   bm <t,t,..|-> <p,p,..|->                     => <bitmap hex> <1|0|P per probe>
-//!   nsec <apex> <dnskey> <name>/<rtype> ..       => Ok <owner>/<next>/<bitmap> .. | Err n | Panic
-//!   nsec3 <apex> <dnskey> <alg> <flags> <iters> <salt> <excl> <name>/<rtype> ..
-//!                                                => Ok <hash>/<next>/<bitmap> .. | Err n | Panic
+//!   bm <t,t,..|-> <p,p,..|->                     => <bitmap hex> <1|0|P per probe> <types yielded by iter()>
+//!   nsec <apex> <dnskey> <name>/<rtype>/<class>/<ttl>/<soa minimum> ..
+//!                                                => Ok <owner>/<next>/<bitmap>/<ttl>/<class> .. | Err n | Panic
+//!   nsec3 <apex> <dnskey> <alg> <flags> <iters> <salt> <excl> <s|m|f<ttl>> <name>/<rtype>/<class>/<ttl>/<min> ..
+//!                                                => Ok <class> <nsec3param ttl> <hash>/<next>/<bitmap>/<ttl> .. | Err n | Panic
 //!   hash <name> <iters> <salt>                   => <hash hex>
 //!   dedup <name>/<rtype>/<u|k>/<rdata> ..        => <name>/<rtype> ..   (SortedRecords' dedup)
+//!   label <hash> <apex>                          => Ok <owner name> <decoded first label>
+//!   srt <name>/<rtype>/<u|k>/<rdata> ..          => <name>/<rtype>/<rdata> ..   (SortedRecords::from_iter on unsorted input)
 //! The record list of a case is the content of the SortedRecords vector, in its
 //! order.  The oracle works from the unsorted record set with its own
 //! canonical ordering, authoritative-name computation, bitmap parser, Base32hex
@@ -19,7 +22,8 @@ use domain::base::cmp::CanonicalOrd;
 use domain::base::{Name, Record, Rtype, Serial, Ttl};
 use domain::dnssec::common::{nsec3_hash, Nsec3HashError};
 use domain::dnssec::sign::denial::nsec::{generate_nsecs, GenerateNsecConfig};
-use domain::dnssec::sign::denial::nsec3::{generate_nsec3s, GenerateNsec3Config};
+use domain::dnssec::sign::denial::nsec3::{generate_nsec3s, mk_hashed_nsec3_owner_name, GenerateNsec3Config, Nsec3ParamTtlMode};
+use domain::utils::base32;
 use domain::dnssec::sign::error::SigningError;
 use domain::dnssec::sign::records::{DefaultSorter, SortedRecords};
 use domain::rdata::dnssec::RtypeBitmap;
@@ -143,11 +147,11 @@ fn parse_bitmap(b: &[u8]) -> Result<BTreeSet<u16>, &'static str> {
 // ------------------------------------------------------------ zones
 
 #[derive(Clone)]
-struct Rec { owner: Labels, rtype: u16, rdata: Vec<u8>, minimum: u32, raw: bool }
+struct Rec { owner: Labels, rtype: u16, rdata: Vec<u8>, minimum: u32, raw: bool, ttl: u32 }
 
 fn mk_name(n: &Labels) -> N { Name::from_octets(Bytes::from(wire(n))).unwrap() }
 
-fn mk_record(r: &Rec) -> Record<N, D> {
+fn mk_record(r: &Rec, class: Class) -> Record<N, D> {
     let data: D = if r.rtype == SOA {
         ZoneRecordData::Soa(Soa::new(mk_name(&vec![b"m".to_vec()]), mk_name(&vec![b"r".to_vec()]),
             Serial(r.rdata.first().copied().unwrap_or(1) as u32), Ttl::from_secs(1), Ttl::from_secs(2), Ttl::from_secs(3), Ttl::from_secs(r.minimum)))
@@ -160,10 +164,10 @@ fn mk_record(r: &Rec) -> Record<N, D> {
         d.extend_from_slice(&r.rdata);
         ZoneRecordData::Unknown(UnknownRecordData::from_octets(Rtype::from_int(r.rtype), Bytes::from(d)).unwrap())
     };
-    Record::new(mk_name(&r.owner), Class::IN, Ttl::from_secs(3600), data)
+    Record::new(mk_name(&r.owner), class, Ttl::from_secs(r.ttl), data)
 }
 
-struct Zone { apex: Labels, recs: Vec<Rec>, kind: &'static str }
+struct Zone { apex: Labels, recs: Vec<Rec>, kind: &'static str, class: u16 }
 
 fn recase(r: &mut Rng, n: &Labels) -> Labels {
     n.iter().map(|l| l.iter().map(|&c| if c.is_ascii_alphabetic() && r.chance(1, 2) { c ^ 0x20 } else { c }).collect()).collect()
@@ -175,7 +179,7 @@ const TYPES: &[u16] = &[1, 1, 1, 5, 15, 16, 16, 28, 28, 43, 46, 47, 48, 51, 99, 
 fn l(s: &[&str]) -> Labels { s.iter().map(|x| x.as_bytes().to_vec()).collect() }
 fn rec(owner: &[&str], apex: &Labels, rtype: u16, k: u8) -> Rec {
     let mut o = l(owner); o.extend(apex.iter().cloned());
-    Rec { owner: o, rtype, rdata: vec![k], minimum: 300, raw: false }
+    Rec { owner: o, rtype, rdata: vec![k], minimum: 300, raw: false, ttl: 3600 }
 }
 
 fn corpus() -> Vec<Zone> {
@@ -183,40 +187,52 @@ fn corpus() -> Vec<Zone> {
     let mut z = vec![];
     let soa = |a: &Labels| rec(&[], a, SOA, 1);
     // apex-only zone
-    z.push(Zone { apex: ex.clone(), recs: vec![soa(&ex)], kind: "apex_only" });
-    z.push(Zone { apex: ex.clone(), recs: vec![soa(&ex), rec(&[], &ex, NS, 1), rec(&[], &ex, DS, 1), rec(&[], &ex, DNSKEY, 1)], kind: "apex_only" });
+    z.push(Zone { apex: ex.clone(), recs: vec![soa(&ex)], kind: "apex_only", class: 1 });
+    z.push(Zone { apex: ex.clone(), recs: vec![soa(&ex), rec(&[], &ex, NS, 1), rec(&[], &ex, DS, 1), rec(&[], &ex, DNSKEY, 1)], kind: "apex_only", class: 1 });
     // glue below a cut at the very end of the zone
-    z.push(Zone { apex: ex.clone(), recs: vec![soa(&ex), rec(&["a"], &ex, 1, 1), rec(&["z"], &ex, NS, 1), rec(&["ns", "z"], &ex, 1, 1), rec(&["zz", "ns", "z"], &ex, 28, 1)], kind: "glue_at_end" });
+    z.push(Zone { apex: ex.clone(), recs: vec![soa(&ex), rec(&["a"], &ex, 1, 1), rec(&["z"], &ex, NS, 1), rec(&["ns", "z"], &ex, 1, 1), rec(&["zz", "ns", "z"], &ex, 28, 1)], kind: "glue_at_end", class: 1 });
     // ENT shared by two branches, deep ENTs
-    z.push(Zone { apex: ex.clone(), recs: vec![soa(&ex), rec(&["a", "ent"], &ex, 1, 1), rec(&["b", "ent"], &ex, 16, 1), rec(&["x", "y", "z", "w"], &ex, 1, 1), rec(&["q", "z", "w"], &ex, 1, 1)], kind: "shared_ent" });
+    z.push(Zone { apex: ex.clone(), recs: vec![soa(&ex), rec(&["a", "ent"], &ex, 1, 1), rec(&["b", "ent"], &ex, 16, 1), rec(&["x", "y", "z", "w"], &ex, 1, 1), rec(&["q", "z", "w"], &ex, 1, 1)], kind: "shared_ent", class: 1 });
     // ENT whose spelling differs between the branches
-    z.push(Zone { apex: ex.clone(), recs: vec![soa(&ex), rec(&["a", "ENT"], &ex, 1, 1), rec(&["b", "ent"], &ex, 16, 1), rec(&["c", "Ent"], &ex, 16, 1)], kind: "shared_ent" });
+    z.push(Zone { apex: ex.clone(), recs: vec![soa(&ex), rec(&["a", "ENT"], &ex, 1, 1), rec(&["b", "ent"], &ex, 16, 1), rec(&["c", "Ent"], &ex, 16, 1)], kind: "shared_ent", class: 1 });
     // names differing in case only
-    z.push(Zone { apex: ex.clone(), recs: vec![soa(&ex), rec(&["a"], &ex, 16, 1), rec(&["A"], &ex, 1, 1), rec(&["A"], &l(&["EXAMPLE"]), 28, 1), rec(&["b"], &l(&["eXample"]), 1, 1)], kind: "case" });
+    z.push(Zone { apex: ex.clone(), recs: vec![soa(&ex), rec(&["a"], &ex, 16, 1), rec(&["A"], &ex, 1, 1), rec(&["A"], &l(&["EXAMPLE"]), 28, 1), rec(&["b"], &l(&["eXample"]), 1, 1)], kind: "case", class: 1 });
     // wildcards
-    z.push(Zone { apex: ex.clone(), recs: vec![soa(&ex), rec(&["*"], &ex, 1, 1), rec(&["*", "a"], &ex, 16, 1), rec(&["b", "*", "a"], &ex, 16, 1)], kind: "wildcard" });
+    z.push(Zone { apex: ex.clone(), recs: vec![soa(&ex), rec(&["*"], &ex, 1, 1), rec(&["*", "a"], &ex, 16, 1), rec(&["b", "*", "a"], &ex, 16, 1)], kind: "wildcard", class: 1 });
     // secure / insecure delegations, nested cut, occluded data, types at the cut
     z.push(Zone { apex: ex.clone(), recs: vec![soa(&ex), rec(&[], &ex, NS, 1),
         rec(&["sec"], &ex, NS, 1), rec(&["sec"], &ex, DS, 1), rec(&["sec"], &ex, 1, 1),
         rec(&["ins"], &ex, NS, 1), rec(&["ins"], &ex, 16, 1), rec(&["g", "ins"], &ex, 1, 1), rec(&["g", "ins"], &ex, NS, 1), rec(&["h", "g", "ins"], &ex, 1, 1),
         rec(&["a", "deep", "ins2"], &ex, NS, 1), rec(&["b", "deep", "ins2"], &ex, 1, 1),
-        rec(&["dsonly"], &ex, DS, 1), rec(&["t"], &ex, 1, 1)], kind: "delegations" });
+        rec(&["dsonly"], &ex, DS, 1), rec(&["t"], &ex, 1, 1)], kind: "delegations", class: 1 });
     // a cut directly followed by a sibling that shares a prefix of the label
-    z.push(Zone { apex: ex.clone(), recs: vec![soa(&ex), rec(&["b"], &ex, NS, 1), rec(&["a", "b"], &ex, 1, 1), rec(&["ba"], &ex, 1, 1), rec(&["b0"], &ex, 1, 1), rec(&["c"], &ex, 1, 1)], kind: "delegations" });
+    z.push(Zone { apex: ex.clone(), recs: vec![soa(&ex), rec(&["b"], &ex, NS, 1), rec(&["a", "b"], &ex, 1, 1), rec(&["ba"], &ex, 1, 1), rec(&["b0"], &ex, 1, 1), rec(&["c"], &ex, 1, 1)], kind: "delegations", class: 1 });
     // SOA problems
-    z.push(Zone { apex: ex.clone(), recs: vec![rec(&["a"], &ex, 1, 1)], kind: "soa_missing" });
-    z.push(Zone { apex: ex.clone(), recs: vec![rec(&[], &ex, NS, 1), rec(&["a"], &ex, SOA, 1)], kind: "soa_missing" });
-    z.push(Zone { apex: ex.clone(), recs: vec![soa(&ex), rec(&[], &ex, SOA, 2)], kind: "soa_double" });
-    z.push(Zone { apex: ex.clone(), recs: vec![], kind: "empty" });
+    z.push(Zone { apex: ex.clone(), recs: vec![rec(&["a"], &ex, 1, 1)], kind: "soa_missing", class: 1 });
+    z.push(Zone { apex: ex.clone(), recs: vec![rec(&[], &ex, NS, 1), rec(&["a"], &ex, SOA, 1)], kind: "soa_missing", class: 1 });
+    z.push(Zone { apex: ex.clone(), recs: vec![soa(&ex), rec(&[], &ex, SOA, 2)], kind: "soa_double", class: 1 });
+    z.push(Zone { apex: ex.clone(), recs: vec![], kind: "empty", class: 1 });
     // records outside the zone, before and after
-    z.push(Zone { apex: ex.clone(), recs: vec![soa(&ex), rec(&["a"], &ex, 1, 1), rec(&[], &l(&["aaa"]), 1, 1), rec(&[], &l(&["zzz"]), 1, 1), rec(&["a"], &l(&["examplf"]), 1, 1), rec(&[], &l(&["xexample"]), 1, 1), rec(&[], &vec![], NS, 1)], kind: "out_of_zone" });
+    z.push(Zone { apex: ex.clone(), recs: vec![soa(&ex), rec(&["a"], &ex, 1, 1), rec(&[], &l(&["aaa"]), 1, 1), rec(&[], &l(&["zzz"]), 1, 1), rec(&["a"], &l(&["examplf"]), 1, 1), rec(&[], &l(&["xexample"]), 1, 1), rec(&[], &vec![], NS, 1)], kind: "out_of_zone", class: 1 });
     // many windows
-    z.push(Zone { apex: ex.clone(), recs: vec![soa(&ex), rec(&["a"], &ex, 65535, 1), rec(&["a"], &ex, 256, 1), rec(&["a"], &ex, 255, 1), rec(&["a"], &ex, 32768, 1), rec(&["a"], &ex, 1, 1), rec(&["a"], &ex, 1, 2)], kind: "windows" });
+    z.push(Zone { apex: ex.clone(), recs: vec![soa(&ex), rec(&["a"], &ex, 65535, 1), rec(&["a"], &ex, 256, 1), rec(&["a"], &ex, 255, 1), rec(&["a"], &ex, 32768, 1), rec(&["a"], &ex, 1, 1), rec(&["a"], &ex, 1, 2)], kind: "windows", class: 1 });
+    // TTLs: SOA TTL below / above MINIMUM, RRSIGs with different TTLs, a second SOA deeper in the zone
+    { let mut so = soa(&ex); so.ttl = 60; so.minimum = 300; let mut a = rec(&["a"], &ex, 46, 1); a.ttl = 5; let mut b = rec(&["a"], &ex, 46, 2); b.ttl = 9;
+      z.push(Zone { apex: ex.clone(), recs: vec![so, a, b, rec(&["b"], &ex, 1, 1)], kind: "ttl", class: 1 }); }
+    { let mut so = soa(&ex); so.ttl = 7200; so.minimum = 10; let mut s2 = rec(&["m"], &ex, SOA, 1); s2.ttl = 77; s2.minimum = 99;
+      z.push(Zone { apex: ex.clone(), recs: vec![so, rec(&["a"], &ex, 1, 1), s2, rec(&["z"], &ex, 1, 1)], kind: "ttl", class: 3 }); }
+    // an RRset with two TTLs: at the apex, at a delegation, below a delegation (never looked at)
+    { let mut a = rec(&[], &ex, 1, 1); a.ttl = 300; let mut b = rec(&[], &ex, 1, 2); b.ttl = 600;
+      z.push(Zone { apex: ex.clone(), recs: vec![soa(&ex), a, b], kind: "mixed_ttl", class: 1 }); }
+    { let mut a = rec(&["g", "d"], &ex, 1, 1); a.ttl = 300; let mut b = rec(&["g", "d"], &ex, 1, 2); b.ttl = 600;
+      z.push(Zone { apex: ex.clone(), recs: vec![soa(&ex), rec(&["d"], &ex, NS, 1), a, b], kind: "mixed_ttl", class: 1 }); }
+    { let mut a = rec(&["d"], &ex, 16, 1); a.ttl = 300; let mut b = rec(&["d"], &ex, 16, 2); b.ttl = 600;
+      z.push(Zone { apex: ex.clone(), recs: vec![soa(&ex), rec(&["d"], &ex, NS, 1), a, b, rec(&["e"], &ex, 1, 1)], kind: "mixed_ttl", class: 1 }); }
     // root zone
-    z.push(Zone { apex: vec![], recs: vec![rec(&[], &vec![], SOA, 1), rec(&[], &vec![], NS, 1), rec(&["com"], &vec![], NS, 1), rec(&["a", "com"], &vec![], 1, 1), rec(&["b", "c", "org"], &vec![], 1, 1)], kind: "root" });
+    z.push(Zone { apex: vec![], recs: vec![rec(&[], &vec![], SOA, 1), rec(&[], &vec![], NS, 1), rec(&["com"], &vec![], NS, 1), rec(&["a", "com"], &vec![], 1, 1), rec(&["b", "c", "org"], &vec![], 1, 1)], kind: "root", class: 1 });
     // two-label apex
     let sub = l(&["Sub", "Example"]);
-    z.push(Zone { apex: sub.clone(), recs: vec![soa(&sub), rec(&["a", "b", "c"], &l(&["sub", "example"]), 1, 1), rec(&[], &l(&["example"]), NS, 1), rec(&["other"], &l(&["example"]), 1, 1)], kind: "apex2" });
+    z.push(Zone { apex: sub.clone(), recs: vec![soa(&sub), rec(&["a", "b", "c"], &l(&["sub", "example"]), 1, 1), rec(&[], &l(&["example"]), NS, 1), rec(&["other"], &l(&["example"]), 1, 1)], kind: "apex2", class: 1 });
     z
 }
 
@@ -242,8 +258,9 @@ fn gen_zone(r: &mut Rng) -> Zone {
     }
     let mut recs = vec![];
     let mut kind = "random";
+    let class: u16 = if r.chance(1, 12) { 3 } else { 1 };
     match r.below(25) { 0 => { kind = "soa_missing"; } 1 => { kind = "soa_double"; recs.push(rec(&[], &apex, SOA, 1)); recs.push(rec(&[], &apex, SOA, 2)); }
-        _ => { let mut s = rec(&[], &apex, SOA, 1); s.minimum = *r.pick(&[0u32, 300, 7200]); recs.push(s); } }
+        _ => { let mut s = rec(&[], &apex, SOA, 1); s.minimum = *r.pick(&[0u32, 300, 7200]); s.ttl = *r.pick(&[3600u32, 60, 300, 86400]); recs.push(s); } }
     if r.chance(3, 4) { recs.push(rec(&[], &apex, NS, 1)); }
     if r.chance(1, 5) { recs.push(rec(&[], &apex, *r.pick(TYPES), 1)); }
     for rel in &names {
@@ -261,9 +278,12 @@ fn gen_zone(r: &mut Rng) -> Zone {
         types.sort(); types.dedup();
         for t in types {
             let k = if t == SOA { 1 } else { r.range(1, 2) };
+            let base_ttl = *r.pick(&[3600u32, 3600, 300, 5]);
             for i in 0..k {
                 let o = if r.chance(1, 4) { recase(r, &owner) } else { owner.clone() };
-                recs.push(Rec { owner: o, rtype: t, rdata: vec![i as u8 + 1], minimum: 300, raw: false });
+                // RRSIG RRsets may differ in TTL; any other RRset only in the mixed_ttl zones
+                let ttl = if i > 0 && (t == RRSIG || r.chance(1, 40)) { base_ttl + 7 } else { base_ttl };
+                recs.push(Rec { owner: o, rtype: t, rdata: vec![i as u8 + 1], minimum: *r.pick(&[300u32, 5]), raw: false, ttl });
             }
         }
     }
@@ -275,12 +295,12 @@ fn gen_zone(r: &mut Rng) -> Zone {
                 3 => { let mut a = apex.clone(); if !a.is_empty() { a[0].insert(0, b'x'); } else { a = l(&["q"]); } a }
                 _ => { let mut a = apex.clone(); if !a.is_empty() { a[0].push(b'0'); a.insert(0, b"a".to_vec()); } else { a = l(&["q"]); } a }
             };
-            recs.push(Rec { owner: o, rtype: *r.pick(&[1u16, 2, 16]), rdata: vec![1], minimum: 300, raw: false });
+            recs.push(Rec { owner: o, rtype: *r.pick(&[1u16, 2, 16]), rdata: vec![1], minimum: 300, raw: false, ttl: 3600 });
         }
     }
     // shuffle
     for i in (1..recs.len()).rev() { let j = r.below(i as u64 + 1) as usize; recs.swap(i, j); }
-    Zone { apex, recs, kind }
+    Zone { apex, recs, kind, class }
 }
 
 // ------------------------------------------------------------ the specification, computed independently
@@ -290,6 +310,12 @@ struct Spec {
     names: BTreeMap<Vec<u8>, (Labels, BTreeSet<u16>)>,
     apex: Labels,
     wf: bool,
+    /// some non-RRSIG RRset has records with different TTLs (Rrset::new panics on those)
+    mixed_ttl: bool,
+    /// SOA records exist at the apex only
+    soa_only_apex: bool,
+    /// (TTL, MINIMUM) of the apex SOA
+    soa: Option<(u32, u32)>,
 }
 impl Spec {
     fn new(z: &Zone) -> Spec {
@@ -302,7 +328,12 @@ impl Spec {
             if r.rtype == SOA { *soa_count.entry(wire(&n)).or_insert(0) += 1; }
         }
         let wf = soa_count.get(&wire(&apex)) == Some(&1) && soa_count.values().all(|&c| c <= 1);
-        Spec { names, apex, wf }
+        let mut ttls: BTreeMap<(Vec<u8>, u16), BTreeSet<u32>> = BTreeMap::new();
+        for r in &z.recs { if r.rtype != RRSIG { ttls.entry((wire(&lower(&r.owner)), r.rtype)).or_default().insert(r.ttl); } }
+        let mixed_ttl = ttls.values().any(|t| t.len() > 1);
+        let soa_only_apex = soa_count.keys().all(|k| *k == wire(&apex));
+        let soa = z.recs.iter().find(|r| r.rtype == SOA && lower(&r.owner) == apex).map(|r| (r.ttl, r.minimum));
+        Spec { names, apex, wf, mixed_ttl, soa_only_apex, soa }
     }
     fn in_zone(&self, n: &Labels) -> bool { at_or_below(n, &self.apex) }
     fn is_deleg(&self, n: &Labels) -> bool {
@@ -353,10 +384,18 @@ fn probes(r: &mut Rng, z: &Zone, sp: &Spec) -> Vec<(Labels, u16)> {
 
 // ------------------------------------------------------------ running the implementation
 
-fn sorted(z: &Zone) -> SortedRecords<N, D> { SortedRecords::<N, D>::from_iter(z.recs.iter().map(mk_record)) }
+fn sorted(z: &Zone) -> SortedRecords<N, D> { let c = Class::from_int(z.class); SortedRecords::<N, D>::from_iter(z.recs.iter().map(|r| mk_record(r, c))) }
 
 fn case_recs(s: &SortedRecords<N, D>) -> String {
     let v: Vec<String> = s.iter().map(|r| format!("{}/{}", hex(r.owner().as_slice()), r.rtype().to_int())).collect();
+    v.join(" ")
+}
+
+fn case_recs_t(s: &SortedRecords<N, D>) -> String {
+    let v: Vec<String> = s.iter().map(|r| {
+        let min = if let ZoneRecordData::Soa(soa) = r.data() { soa.minimum().as_secs() } else { 0 };
+        format!("{}/{}/{}/{}/{}", hex(r.owner().as_slice()), r.rtype().to_int(), r.class().to_int(), r.ttl().as_secs(), min)
+    }).collect();
     v.join(" ")
 }
 
@@ -369,12 +408,12 @@ fn err_word(e: &SigningError) -> &'static str {
     }
 }
 
-struct NsecOut { owner: Labels, next: Labels, types: Vec<u8> }
+struct NsecOut { owner: Labels, next: Labels, types: Vec<u8>, ttl: u32, class: u16 }
 
 fn run_nsec(out: &mut Out, z: &Zone, sp: &Spec, dk: bool, r: &mut Rng) {
     let s = sorted(z);
     let apex = mk_name(&z.apex);
-    let case = format!("nsec {} {} {}", hex(&wire(&z.apex)), dk as u8, case_recs(&s));
+    let case = format!("nsec {} {} {}", hex(&wire(&z.apex)), dk as u8, case_recs_t(&s));
     out.begin(&case);
     let cfg = if dk { GenerateNsecConfig::new() } else { GenerateNsecConfig::new().without_assuming_dnskeys_will_be_added() };
     let res = catch_mut(|| generate_nsecs(&apex, s.owner_rrs(), &cfg));
@@ -383,18 +422,29 @@ fn run_nsec(out: &mut Out, z: &Zone, sp: &Spec, dk: bool, r: &mut Rng) {
         Ok(Err(e)) => (err_word(e).into(), None),
         Ok(Ok(v)) => {
             let recs: Vec<NsecOut> = v.iter().map(|x| NsecOut { owner: labels_of_wire(x.owner().as_slice()),
-                next: labels_of_wire(x.data().next_name().as_slice()), types: x.data().types().as_slice().to_vec() }).collect();
-            let items: Vec<String> = recs.iter().map(|x| format!("{}/{}/{}", hex(&wire(&x.owner)), hex(&wire(&x.next)), hex(&x.types))).collect();
+                next: labels_of_wire(x.data().next_name().as_slice()), types: x.data().types().as_slice().to_vec(),
+                ttl: x.ttl().as_secs(), class: x.class().to_int() }).collect();
+            let items: Vec<String> = recs.iter().map(|x| format!("{}/{}/{}/{}/{}", hex(&wire(&x.owner)), hex(&wire(&x.next)), hex(&x.types), x.ttl, x.class)).collect();
             (format!("Ok {}", if items.is_empty() { "-".to_string() } else { items.join(" ") }), Some(recs))
         }
     };
     out.case(&case, &obs, s.len() > 1, &format!("nsec_{}", z.kind));
+    // an RRset with several TTLs makes Rrset::new panic (its documented expect); the model
+    // has the same panic site (T2), the property says nothing about such zones
+    if sp.mixed_ttl { out.count(if res.is_err() { "mixed_ttl_panic" } else { "mixed_ttl_not_visited" }); return; }
     out.check(res.is_ok(), "panic_nsec", &case, res.as_ref().err().map(|s| s.as_str()).unwrap_or(""));
     if !sp.wf { return; }
     let Some(recs) = recs else {
         out.check(false, "nsec_missing_owner", &case, &format!("well-formed zone but result {}", obs));
         return;
     };
+    // RFC 9077: TTL = min(SOA MINIMUM, SOA TTL); class of the zone
+    if let (true, Some((t, m))) = (sp.soa_only_apex, sp.soa) {
+        for x in &recs {
+            out.check(x.ttl == t.min(m), "nsec_ttl", &case, &format!("{} has TTL {} want {}", hex(&wire(&x.owner)), x.ttl, t.min(m)));
+            out.check(x.class == z.class, "nsec_class", &case, &format!("class {}", x.class));
+        }
+    }
     // exactly one NSEC per authoritative name
     let auth = sp.auth_names();
     let got: Vec<Labels> = recs.iter().map(|x| lower(&x.owner)).collect();
@@ -445,19 +495,21 @@ fn run_nsec(out: &mut Out, z: &Zone, sp: &Spec, dk: bool, r: &mut Rng) {
 }
 
 #[derive(Clone)]
-struct Cfg3 { dk: bool, alg: u8, flags: u8, iters: u16, salt: Vec<u8>, excl: bool }
+struct Cfg3 { dk: bool, alg: u8, flags: u8, iters: u16, salt: Vec<u8>, excl: bool, pmode: u8 }
 
 fn run_nsec3(out: &mut Out, z: &Zone, sp: &Spec, c: &Cfg3, r: &mut Rng) {
     let s = sorted(z);
     let apex = mk_name(&z.apex);
-    let case = format!("nsec3 {} {} {} {} {} {} {} {}", hex(&wire(&z.apex)), c.dk as u8, c.alg, c.flags, c.iters, hex(&c.salt), c.excl as u8, case_recs(&s));
+    let pm = match c.pmode { 1 => "m".to_string(), 2 => "f1234".to_string(), _ => "s".to_string() };
+    let case = format!("nsec3 {} {} {} {} {} {} {} {} {}", hex(&wire(&z.apex)), c.dk as u8, c.alg, c.flags, c.iters, hex(&c.salt), c.excl as u8, pm, case_recs_t(&s));
     out.begin(&case);
     let params = Nsec3param::new(Nsec3HashAlgorithm::from_int(c.alg), c.flags, c.iters, Nsec3Salt::from_octets(Bytes::from(c.salt.clone())).unwrap());
     let mut cfg = GenerateNsec3Config::<Bytes, DefaultSorter>::new(params);
     if !c.dk { cfg = cfg.without_assuming_dnskeys_will_be_added(); }
     if !c.excl { cfg = cfg.without_opt_out_excluding_owner_names_of_unsigned_delegations(); }
+    cfg = cfg.with_ttl_mode(match c.pmode { 1 => Nsec3ParamTtlMode::SoaMinimum, 2 => Nsec3ParamTtlMode::Fixed(Ttl::from_secs(1234)), _ => Nsec3ParamTtlMode::Soa });
     let res = catch_mut(|| generate_nsec3s(&apex, s.owner_rrs(), &cfg));
-    struct O3 { hash: Option<Vec<u8>>, next: Vec<u8>, types: Vec<u8>, flags: u8, iters: u16, salt: Vec<u8>, alg: u8, suffix_ok: bool }
+    struct O3 { hash: Option<Vec<u8>>, next: Vec<u8>, types: Vec<u8>, flags: u8, iters: u16, salt: Vec<u8>, alg: u8, suffix_ok: bool, ttl: u32, class: u16 }
     let (obs, recs): (String, Option<Vec<O3>>) = match &res {
         Err(_) => ("Panic".into(), None),
         Ok(Err(e)) => (err_word(e).into(), None),
@@ -468,17 +520,25 @@ fn run_nsec3(out: &mut Out, z: &Zone, sp: &Spec, c: &Cfg3, r: &mut Rng) {
                 let suffix_ok = !o.is_empty() && lower(&o[1..].to_vec()) == sp.apex;
                 O3 { hash, next: x.data().next_owner().as_slice().to_vec(), types: x.data().types().as_slice().to_vec(),
                      flags: x.data().flags(), iters: x.data().iterations(), salt: x.data().salt().as_slice().to_vec(),
-                     alg: x.data().hash_algorithm().to_int(), suffix_ok }
+                     alg: x.data().hash_algorithm().to_int(), suffix_ok, ttl: x.ttl().as_secs(), class: x.class().to_int() }
             }).collect();
-            let items: Vec<String> = recs.iter().map(|x| format!("{}/{}/{}", x.hash.as_ref().map(|h| hex(h)).unwrap_or("BADOWNER".into()), hex(&x.next), hex(&x.types))).collect();
+            let items: Vec<String> = recs.iter().map(|x| format!("{}/{}/{}/{}", x.hash.as_ref().map(|h| hex(h)).unwrap_or("BADOWNER".into()), hex(&x.next), hex(&x.types), x.ttl)).collect();
             let p = &v.nsec3param;
+            let pclass = p.class().to_int();
+            let class_word = if recs.iter().all(|x| x.class == pclass) { pclass.to_string() } else { "MIXED".to_string() };
             let pok = lower(&labels_of_wire(p.owner().as_slice())) == sp.apex && p.data().flags() == c.flags && p.data().iterations() == c.iters
                 && p.data().salt().as_slice() == &c.salt[..] && p.data().hash_algorithm().to_int() == c.alg;
             out.check(pok, "nsec3_param_record", &case, "NSEC3PARAM differs from the configuration");
-            (format!("Ok {}", if items.is_empty() { "-".to_string() } else { items.join(" ") }), Some(recs))
+            if let (true, true, Some((t, m))) = (sp.wf, sp.soa_only_apex, sp.soa) {
+                let want = match c.pmode { 1 => m, 2 => 1234, _ => t };
+                out.check(p.ttl().as_secs() == want, "nsec3param_ttl", &case, &format!("TTL {} want {}", p.ttl().as_secs(), want));
+                for x in &recs { out.check(x.ttl == t.min(m), "nsec3_ttl", &case, &format!("TTL {} want {}", x.ttl, t.min(m))); }
+            }
+            (format!("Ok {} {} {}", class_word, p.ttl().as_secs(), if items.is_empty() { "-".to_string() } else { items.join(" ") }), Some(recs))
         }
     };
     out.case(&case, &obs, s.len() > 1, &format!("nsec3_{}", z.kind));
+    if sp.mixed_ttl { out.count(if res.is_err() { "mixed_ttl_panic3" } else { "mixed_ttl_not_visited3" }); return; }
     out.check(res.is_ok(), "panic_nsec3", &case, res.as_ref().err().map(|s| s.as_str()).unwrap_or(""));
     if c.alg != 1 {
         out.check(obs == "Err 3" || !sp.wf, "nsec3_unsupported_alg", &case, &obs);
@@ -562,6 +622,41 @@ fn run_hash(out: &mut Out, n: &Labels, iters: u16, salt: &[u8]) {
     out.check(obs == hex(&ih(n, iters, salt)), "nsec3_hash", &case, &obs);
 }
 
+fn b32hex_encode_lower(b: &[u8]) -> Vec<u8> {
+    const A: &[u8] = b"0123456789abcdefghijklmnopqrstuv";
+    let mut out = vec![]; let mut acc: u32 = 0; let mut bits = 0;
+    for &x in b { acc = (acc << 8) | x as u32; bits += 8; while bits >= 5 { bits -= 5; out.push(A[((acc >> bits) & 31) as usize]); } acc &= (1 << bits) - 1; }
+    if bits > 0 { out.push(A[((acc << (5 - bits)) & 31) as usize]); }
+    out
+}
+
+/// The owner name of the NSEC3 for `n`: <lower-case base32hex(hash)>.<apex>, and the
+/// way the linking loop gets the hash back from it.
+fn run_label(out: &mut Out, n: &Labels, apex: &Labels, iters: u16, salt: &[u8]) {
+    let h = ih(n, iters, salt);
+    let case = format!("label {} {}", hex(&h), hex(&wire(apex)));
+    out.begin(&case);
+    let (nm, ap) = (mk_name(n), mk_name(apex));
+    let s = Nsec3Salt::from_octets(Bytes::from(salt.to_vec())).unwrap();
+    let res = catch_mut(|| {
+        let o: N = mk_hashed_nsec3_owner_name::<N, Bytes, Bytes>(&nm, Nsec3HashAlgorithm::SHA1, iters, &s, &ap).map_err(|_| ())?;
+        let labels = labels_of_wire(o.as_slice());
+        let first = String::from_utf8(labels.first().cloned().unwrap_or_default()).map_err(|_| ())?;
+        let d: Vec<u8> = base32::decode_hex(&first).map_err(|_| ())?;
+        Ok::<_, ()>((labels, d))
+    });
+    match res {
+        Err(e) => { out.case(&case, "Panic", true, "label"); out.check(false, "panic_nsec3_label", &case, &e); }
+        Ok(Err(())) => { out.case(&case, "Err", true, "label"); out.check(false, "nsec3_label", &case, "owner name or decoding failed"); }
+        Ok(Ok((labels, d))) => {
+            out.case(&case, &format!("Ok {} {}", hex(&wire(&labels)), hex(&d)), true, "label");
+            let mut want = vec![b32hex_encode_lower(&h)]; want.extend(apex.iter().cloned());
+            out.check(labels == want, "nsec3_label", &case, &hex(&wire(&labels)));
+            out.check(d == h, "nsec3_label_roundtrip", &case, &hex(&d));
+        }
+    }
+}
+
 fn run_bitmap(out: &mut Out, ts: &[u16], ps: &[u16]) {
     let j = |v: &[u16]| if v.is_empty() { "-".to_string() } else { v.iter().map(|x| x.to_string()).collect::<Vec<_>>().join(",") };
     let case = format!("bm {} {}", j(ts), j(ps));
@@ -578,7 +673,7 @@ fn run_bitmap(out: &mut Out, ts: &[u16], ps: &[u16]) {
     match res {
         Err(e) => { out.case(&case, "Panic", true, "bm"); out.check(false, "panic_bitmap", &case, &e); }
         Ok((w, probes, listed)) => {
-            let obs = format!("{} {}", hex(&w), if probes.is_empty() { "-".to_string() } else { probes.iter().map(|&b| if b { '1' } else { '0' }).collect() });
+            let obs = format!("{} {} {}", hex(&w), if probes.is_empty() { "-".to_string() } else { probes.iter().map(|&b| if b { '1' } else { '0' }).collect() }, j(&listed));
             out.case(&case, &obs, ts.len() > 1, "bm");
             let want: BTreeSet<u16> = ts.iter().copied().collect();
             match parse_bitmap(&w) {
@@ -630,6 +725,40 @@ fn run_dedup(out: &mut Out, recs: &[(Labels, u16, bool, Vec<u8>)]) {
     }
 }
 
+/// SortedRecords::from_iter on records in arbitrary order: the result is in
+/// canonical owner order (types ascending within an owner) and holds every
+/// (owner, type) of the input.
+fn run_sort(out: &mut Out, recs: &[(Labels, u16, bool, Vec<u8>)]) {
+    let mk = |x: &(Labels, u16, bool, Vec<u8>)| -> Record<N, D> {
+        let data: D = if x.2 { ZoneRecordData::Ns(Ns::new(mk_name(&vec![x.3.clone()]))) }
+            else { ZoneRecordData::Unknown(UnknownRecordData::from_octets(Rtype::from_int(x.1), Bytes::from(x.3.clone())).unwrap()) };
+        Record::new(mk_name(&x.0), Class::IN, Ttl::from_secs(3600), data)
+    };
+    let rd = |x: &(Labels, u16, bool, Vec<u8>)| if x.2 { wire(&vec![x.3.clone()]) } else { x.3.clone() };
+    let items: Vec<String> = recs.iter().map(|x| format!("{}/{}/{}/{}", hex(&wire(&x.0)), x.1, if x.2 { "k" } else { "u" }, hex(&rd(x)))).collect();
+    let case = format!("srt {}", items.join(" "));
+    out.begin(&case);
+    let res = catch_mut(|| {
+        let s = SortedRecords::<N, D>::from_iter(recs.iter().map(mk));
+        s.iter().map(|r| {
+            let d = match r.data() { ZoneRecordData::Ns(ns) => ns.nsdname().as_slice().to_vec(), ZoneRecordData::Unknown(u) => u.data().to_vec(), _ => vec![] };
+            (labels_of_wire(r.owner().as_slice()), r.rtype().to_int(), d)
+        }).collect::<Vec<_>>()
+    });
+    match res {
+        Err(e) => { out.case(&case, "Panic", true, "srt"); out.check(false, "panic_sorted_records", &case, &e); }
+        Ok(got) => {
+            let obs: Vec<String> = got.iter().map(|(n, t, d)| format!("{}/{}/{}", hex(&wire(n)), t, hex(d))).collect();
+            out.case(&case, &if obs.is_empty() { "-".to_string() } else { obs.join(" ") }, recs.len() > 1, "srt");
+            out.check(got.windows(2).all(|w| match canon_cmp(&w[0].0, &w[1].0) { Ordering::Less => true, Ordering::Equal => w[0].1 <= w[1].1, Ordering::Greater => false }),
+                "sorted_records_order", &case, "not in canonical owner / type order");
+            let want: BTreeSet<(Vec<u8>, u16)> = recs.iter().map(|x| (wire(&lower(&x.0)), x.1)).collect();
+            let have: BTreeSet<(Vec<u8>, u16)> = got.iter().map(|(n, t, _)| (wire(&lower(n)), *t)).collect();
+            out.check(want == have, "sorted_records_drops_type", &case, "");
+        }
+    }
+}
+
 fn main() {
     let a = args();
     let mut out = Out::new(&a, "C13", 60);
@@ -653,11 +782,11 @@ fn main() {
         let salt = match rr.below(4) { 0 => vec![], 1 => vec![0xAA, 0xBB, 0xCC, 0xDD], _ => { let k = rr.range(1, 8) as usize; rr.bytes(k) } };
         let iters = *rr.pick(&[0u16, 0, 1, 2, 5, 10]);
         let flags = *rr.pick(&[0u8, 0, 1, 1, 1, 2, 3, 0x81]);
-        cfgs.push(Cfg3 { dk: rr.chance(1, 2), alg: if rr.chance(1, 30) { 2 } else { 1 }, flags, iters, salt: salt.clone(), excl: rr.chance(4, 5) });
+        cfgs.push(Cfg3 { dk: rr.chance(1, 2), alg: if rr.chance(1, 30) { 2 } else { 1 }, flags, iters, salt: salt.clone(), excl: rr.chance(4, 5), pmode: rr.below(3) as u8 });
         if both {
-            cfgs.push(Cfg3 { dk: true, alg: 1, flags: 0, iters: 0, salt: vec![], excl: true });
-            cfgs.push(Cfg3 { dk: false, alg: 1, flags: 1, iters: 3, salt: vec![1, 2], excl: true });
-            cfgs.push(Cfg3 { dk: false, alg: 1, flags: 1, iters: 1, salt: vec![], excl: false });
+            cfgs.push(Cfg3 { dk: true, alg: 1, flags: 0, iters: 0, salt: vec![], excl: true, pmode: 0 });
+            cfgs.push(Cfg3 { dk: false, alg: 1, flags: 1, iters: 3, salt: vec![1, 2], excl: true, pmode: 1 });
+            cfgs.push(Cfg3 { dk: false, alg: 1, flags: 1, iters: 1, salt: vec![], excl: false, pmode: 2 });
         }
         for c in &cfgs { run_nsec3(&mut out, &z, &sp, c, &mut rr); }
     }
@@ -677,6 +806,7 @@ fn main() {
         idx += 1;
         if !out.wants(idx) { continue; }
         run_hash(&mut out, &n, it, &salt);
+        if i % 3 == 0 { let apex = match i % 4 { 0 => vec![], 1 => l(&["Example"]), _ => l(&["sub", "ex"]) }; run_label(&mut out, &n, &apex, it, &salt); }
     }
     // bitmap cases
     let n_bm = if a.thorough { 5000 } else { 400 } * a.scale;
@@ -713,6 +843,20 @@ fn main() {
         idx += 1;
         if !out.wants(idx) { continue; }
         run_dedup(&mut out, &recs);
+    }
+    // sort cases (one variant per type: NS records are real Ns, everything else unknown)
+    let n_srt = if a.thorough { 3000 } else { 200 } * a.scale;
+    for i in 0..n_srt + 1 {
+        let k = if i == 0 { 0 } else { r.range(1, 8) };
+        let recs: Vec<(Labels, u16, bool, Vec<u8>)> = (0..k).map(|_| {
+            let owner = match r.below(7) { 0 => l(&["a"]), 1 => l(&["A"]), 2 => l(&["b", "a"]), 3 => l(&["B", "A"]), 4 => l(&["z"]), 5 => l(&["*", "a"]), _ => vec![] };
+            let t = *r.pick(&[1u16, 2, 2, 16, 17, 65280, 65281]);
+            if t == 2 { (owner, t, true, r.pick(&[&b"n"[..], b"m", b"nn"]).to_vec()) }
+            else { (owner, t, false, r.pick(&[&[1u8][..], &[2], &[1, 0], &[], &[0xff]]).to_vec()) }
+        }).collect();
+        idx += 1;
+        if !out.wants(idx) { continue; }
+        run_sort(&mut out, &recs);
     }
     out.finish(&[]);
 }
